@@ -145,7 +145,7 @@ theorem C32_connect_recv_safe (v : Valet) (hs : AllSafe v.conns) (hn : (keysOf v
           simp only [hlk] at hk
           by_cases hck : ca = k
           · simp only [hck, if_true] at hk; simp at hk; subst hk
-            simp [Safe, init]
+            exact safe_of (safe_init .req sGET max) rfl (by simp [init]) rfl rfl rfl
           · simp [hck] at hk
       · have hnm : ca ∉ keysOf v.conns := fun hm => lookup_ne_none_of_mem hm hl
         simp only [keysOf, List.map_append, List.map_cons, List.map_nil]
@@ -270,7 +270,9 @@ theorem C32_client_no_raise (c : Client) (hr : c.raised = false) (hs : Safe c.rs
       simp [parseRaises, hs.2.1, hp.2.1]
     simp only [hnr, Bool.false_eq_true, if_false]
     split
-    · exact ⟨by simp, safe_makeParser hp⟩
+    · split
+      · exact ⟨by simp [hr], safe_makeParser hp⟩
+      · exact ⟨by simp, safe_makeParser hp⟩
     · exact ⟨by simp, hp⟩
 
 /-- non-vacuity: a response whose chunk size is `zz` is recorded as one errored response -/
